@@ -6,6 +6,7 @@ import time
 import z3
 
 from . import containers, mir, summaries  # noqa: F401  (containers registers its summaries)
+from . import iterators  # noqa: F401
 from .interp import Explorer, Lazy, Cell, Ref, Unsupported
 from .srcinfo import SrcInfo
 
